@@ -15,6 +15,7 @@ import (
 	"encoding/json"
 	"fmt"
 	"sort"
+	"strings"
 	"time"
 
 	"github.com/nspcc-dev/neo-go/pkg/config"
@@ -242,7 +243,13 @@ func c20RunCrashCase(co *caseOut, raw json.RawMessage) error {
 		}
 		bc2, tb2, perr := c20OpenOver(st, trusted)
 		if perr != "" {
-			fail("does not start: %s", perr)
+			if i := strings.Index(perr, "Error:"); i >= 0 { // the message inside neotest's assertion report
+				perr = perr[i+6:]
+				if j := strings.Index(perr, "Test:"); j >= 0 {
+					perr = perr[:j]
+				}
+			}
+			fail("does not start: %s", strings.Join(strings.Fields(perr), " "))
 			tb2.done()
 			impl.Points = append(impl.Points, pt)
 			continue
